@@ -132,8 +132,12 @@ package crypto
 //@   safety
 //@   loop 0 invariant 0 <= inIndex && inIndex <= len(inBuffer)
 //@          decreases len(inBuffer) - inIndex
+//@          step no-tag-skipped: inIndex == beginTagIndex + 1 || (ret(ExtractSerializedContainer)[2] == nil && inIndex == beginTagIndex + ret(ExtractSerializedContainer)[0])
 //@   loop 1 invariant 0 <= inIndex && inIndex <= len(inBuffer)
 //@          invariant $n < len(recognizer.callbacks) ==> inIndex == beginTagIndex && inIndex + 3 <= len(inBuffer)
 //@          invariant inIndex >= beginTagIndex
-//@          invariant $n == len(recognizer.callbacks) ==> inIndex > beginTagIndex
+//@          invariant $n == len(recognizer.callbacks) ==> inIndex == beginTagIndex + 1
 //@   ensures err != nil ==> sameslice(out, inBuffer)
+//@   at call bytes.Index : assert sameslice(arg[0], inBuffer[inIndex:]) && sameslice(arg[1], TagBegin)
+//@   at call ExtractSerializedContainer : assert sameslice(arg[0], inBuffer[inIndex:])
+//@   at call EnvelopeCallbackHandler.OnCryptoEnvelope : assert sameslice(arg[1], ret(ExtractSerializedContainer)[1])
